@@ -1046,8 +1046,8 @@ lemma between C15's evaluator (over which C15 proves `satisfy` sound: T3 / T4) a
 `C15.eval (compile f) stack = accept → Core.evalWith (evalCtx env sv (compile f)) stack = .ok [[1]]` for every fragment of
 the covered set under every flag set (C15's opcode semantics refines `Core.step`, incl. MINIMALIF, NULLFAIL, the push-size
 and op-count limits).  With it `verify_p2wsh_of` / `verify_p2sh_p2wsh_of` / `verify_tr_script_of` -- generic in the script,
-proved -- give wsh / sh(wsh) / tapleaf closures for the whole set at once.  Until then: one template evaluated directly in
-C08's engine. -/
+proved -- give wsh / sh(wsh) / tapleaf closures for the whole set at once.  Until then: three templates evaluated directly in
+C08's engine (and_v(v:pk,pk), or_d(pk,pkh) with both satisfactions, and_v(v:pk,older(n)) for the OP_n spelling). -/
 
 /-- T1 (wsh(and_v(v:pk(A),pk(B)))): witness `[sig_B, sig_A, <A> CHECKSIGVERIFY <B> CHECKSIG]` -- the satisfaction
     `sat(Y) sat(X)` of and_v -- is accepted under every flag set with WITNESS. -/
@@ -1074,6 +1074,74 @@ theorem closure_wsh_andv_pk_pk_secp256k1 (flags : Nat) (cx : TxCtx) (h a b sa sb
     verifyScript (envOf secpCrypto flags cx) [] (p2wsh h) [sb, sa, andvPkPk a b] = .ok () :=
   closure_wsh_andv_pk_pk (envOf secpCrypto flags cx) h a b sa sb hl hW hnz hh hea heb hla hlb hka hkb
     (madeBySecp_passes cx _ _ sa a hsa) (madeBySecp_passes cx _ _ sb b hsb)
+
+/-- T1 (wsh(or_d(pk(A),pkh(B)))), left satisfaction `[sig_A]`: the IFDUP / NOTIF branch is skipped. -/
+theorem closure_wsh_ord_pk_pkh_left (env : VerifyEnv) (h a hb sa : Bytes) (hl : h.length = 32) (hlb : hb.length = 20)
+    (hW : has env.flags FLAG_WITNESS = true) (hnz : castToBool h = true)
+    (hh : env.hashes.sha256 (ordPkPkh a hb) = h)
+    (hea : checkSignatureEncoding env.flags sa = .ok ()) (hla : sa.length ≤ 520)
+    (hka : isCompressedPubKey a = true)
+    (hsa : env.checker.checkECDSA sa a (ordPkPkh a hb) .WITNESS_V0 = .ok true) :
+    verifyScript env [] (p2wsh h) [sa, ordPkPkh a hb] = .ok () :=
+  verify_wsh_ordPkPkh_left env h a hb sa hl hlb hW hnz hh hea hla hka hsa
+
+/-- T1 (wsh(or_d(pk(A),pkh(B)))), right satisfaction `[sig_B, pk_B, <empty>]`: the empty signature dissatisfies
+    `pk(A)` (no NULLFAIL violation), NOTIF runs the p2pkh branch; `hb` is the hash160 of `pk_B`. -/
+theorem closure_wsh_ord_pk_pkh_right (env : VerifyEnv) (h a hb b sb : Bytes) (hl : h.length = 32) (hlb : hb.length = 20)
+    (hW : has env.flags FLAG_WITNESS = true) (hnz : castToBool h = true)
+    (hh : env.hashes.sha256 (ordPkPkh a hb) = h) (hhb : env.hashes.ripemd160 (env.hashes.sha256 b) = hb)
+    (heb : checkSignatureEncoding env.flags sb = .ok ()) (hsl : sb.length ≤ 520)
+    (hka : isCompressedPubKey a = true) (hkb : isCompressedPubKey b = true)
+    (hsa : env.checker.checkECDSA [] a (ordPkPkh a hb) .WITNESS_V0 = .ok false)
+    (hsb : env.checker.checkECDSA sb b (ordPkPkh a hb) .WITNESS_V0 = .ok true) :
+    verifyScript env [] (p2wsh h) [sb, b, [], ordPkPkh a hb] = .ok () :=
+  verify_wsh_ordPkPkh_right env h a hb b sb hl hlb hW hnz hh hhb heb hsl hka hkb hsa hsb
+
+/-- the composed checker answers `false` (not an error) on the empty signature -/
+theorem checkECDSA_empty_sig {α : Type} (C : Crypto α) (cx : TxCtx) (pk sc : Bytes) (sv : SigVersion) :
+    checkECDSA C cx [] pk sc sv = .ok false := by
+  unfold checkECDSA
+  cases C.parsePub pk <;> simp
+
+/-- **T1 end to end on secp256k1 (wsh(or_d(pk(A),pkh(B))))**, both satisfactions. -/
+theorem closure_wsh_ord_pk_pkh_secp256k1 (flags : Nat) (cx : TxCtx) (h a hb : Bytes) (hl : h.length = 32)
+    (hlb : hb.length = 20) (hW : has flags FLAG_WITNESS = true) (hnz : castToBool h = true)
+    (hh : sha256 (ordPkPkh a hb) = h) (hka : isCompressedPubKey a = true) :
+    (∀ sa, checkSignatureEncoding flags sa = .ok () → sa.length ≤ 520 → MadeBySecp cx (ordPkPkh a hb) .WITNESS_V0 sa a →
+      verifyScript (envOf secpCrypto flags cx) [] (p2wsh h) [sa, ordPkPkh a hb] = .ok ()) ∧
+    (∀ b sb, ripemd160 (sha256 b) = hb → isCompressedPubKey b = true → checkSignatureEncoding flags sb = .ok () →
+      sb.length ≤ 520 → MadeBySecp cx (ordPkPkh a hb) .WITNESS_V0 sb b →
+      verifyScript (envOf secpCrypto flags cx) [] (p2wsh h) [sb, b, [], ordPkPkh a hb] = .ok ()) :=
+  ⟨fun sa hea hla hm => closure_wsh_ord_pk_pkh_left (envOf secpCrypto flags cx) h a hb sa hl hlb hW hnz hh hea hla hka
+      (madeBySecp_passes cx _ _ sa a hm),
+   fun b sb hhb hkb heb hsl hm => closure_wsh_ord_pk_pkh_right (envOf secpCrypto flags cx) h a hb b sb hl hlb hW hnz hh hhb
+      heb hsl hka hkb (checkECDSA_empty_sig secpCrypto cx a (ordPkPkh a hb) .WITNESS_V0) (madeBySecp_passes cx _ _ sb b hm)⟩
+
+/-- T1 (wsh(and_v(v:pk(A),older(n))), `1 ≤ n ≤ 16`: the `OP_n` spelling): witness `[sig_A, script]`, given BIP112's
+    comparison holds for this input when CHECKSEQUENCEVERIFY is enforced (`checkSequence`: version ≥ 2, disable bit
+    clear, same unit, sequence ≥ n). -/
+theorem closure_wsh_andv_pk_older (env : VerifyEnv) (h a sa : Bytes) (n : Nat) (hn : 1 ≤ n ∧ n ≤ 16) (hl : h.length = 32)
+    (hW : has env.flags FLAG_WITNESS = true) (hnz : castToBool h = true)
+    (hh : env.hashes.sha256 (andvPkOlder a n) = h)
+    (hea : checkSignatureEncoding env.flags sa = .ok ()) (hla : sa.length ≤ 520)
+    (hka : isCompressedPubKey a = true)
+    (hsa : env.checker.checkECDSA sa a (andvPkOlder a n) .WITNESS_V0 = .ok true)
+    (hseq : has env.flags FLAG_CHECKSEQUENCEVERIFY = true →
+      checkSequence (evalCtx env .WITNESS_V0 (andvPkOlder a n)) (n : Int) = true) :
+    verifyScript env [] (p2wsh h) [sa, andvPkOlder a n] = .ok () :=
+  verify_wsh_andvPkOlder env h a sa n hn hl hW hnz hh hea hla hka hsa hseq
+
+/-- **T1 end to end on secp256k1 (wsh(and_v(v:pk(A),older(n))))**. -/
+theorem closure_wsh_andv_pk_older_secp256k1 (flags : Nat) (cx : TxCtx) (h a sa : Bytes) (n : Nat) (hn : 1 ≤ n ∧ n ≤ 16)
+    (hl : h.length = 32) (hW : has flags FLAG_WITNESS = true) (hnz : castToBool h = true)
+    (hh : sha256 (andvPkOlder a n) = h)
+    (hea : checkSignatureEncoding flags sa = .ok ()) (hla : sa.length ≤ 520) (hka : isCompressedPubKey a = true)
+    (hsa : MadeBySecp cx (andvPkOlder a n) .WITNESS_V0 sa a)
+    (hseq : has flags FLAG_CHECKSEQUENCEVERIFY = true →
+      checkSequence (evalCtx (envOf secpCrypto flags cx) .WITNESS_V0 (andvPkOlder a n)) (n : Int) = true) :
+    verifyScript (envOf secpCrypto flags cx) [] (p2wsh h) [sa, andvPkOlder a n] = .ok () :=
+  closure_wsh_andv_pk_older (envOf secpCrypto flags cx) h a sa n hn hl hW hnz hh hea hla hka
+    (madeBySecp_passes cx _ _ sa a hsa) hseq
 
 /-! ## T3 — BIP322 simple signatures verify for the address and message they were made for
 
